@@ -550,8 +550,195 @@ fn all_redirs() -> Vec<Redir> {
     v
 }
 
+
+// ------------------------------------------------------------------ descriptors the shell opens for its own use
+
+/// commands that make the shell open descriptors of its own (not redirections)
+const INTERNAL_USERS: [(&str, &str); 9] = [
+    ("dot script", "command . /tmp/dot1"),
+    ("dot script, three levels", "command . /tmp/dot3"),
+    ("dot script that is missing", "command . /tmp/nodot"),
+    ("command substitution", "x=$(fds in)"),
+    ("nested command substitution", "x=$(y=$(fds in); fds in2)"),
+    ("here-document", "fds in <<E\nbody\nE"),
+    ("pipeline", "fds in | fds in2"),
+    ("dot script in a command substitution", "x=$(command . /tmp/dot1)"),
+    ("eval with redirection inside a dot script", "command . /tmp/dot4"),
+];
+
+fn internal_files() -> Vec<(String, FileSpec)> {
+    vec![
+        ("/tmp/dot1".into(), FileSpec::Regular(b"fds in\n".to_vec())),
+        ("/tmp/dot2".into(), FileSpec::Regular(b"command . /tmp/dot1\nfds in2\n".to_vec())),
+        ("/tmp/dot3".into(), FileSpec::Regular(b"command . /tmp/dot2\nfds in3\n".to_vec())),
+        ("/tmp/dot4".into(), FileSpec::Regular(b"eval 'fds in' </tmp/in\n".to_vec())),
+    ]
+}
+
+/// every descriptor >= 10 must be close-on-exec; no descriptor below 10 may appear that was not
+/// there before; afterwards the table is exactly what it was
+fn check_internal(out: &vsh::VOut, what: &str, limited: bool) -> Result<(), (String, String)> {
+    if out.end != vsh::End::Done {
+        return Err((format!("internal:no-termination:{what}"), format!("{:?}", out.end)));
+    }
+    let tables: Vec<(String, BTreeMap<i32, (String, String, bool, String)>)> = out.events.iter().filter(|e| e.kind == "fds").map(|e| (e.args[0].clone(), parse_table(&e.args[1]))).collect();
+    let Some((_, before)) = tables.iter().find(|(t, _)| t == "before") else {
+        return Err(("inconclusive".into(), "no `before` snapshot".into()));
+    };
+    for (tag, t) in &tables {
+        for (fd, (_, _, cloexec, _)) in t {
+            if *fd >= 10 && !cloexec {
+                return Err((format!("internal:no-cloexec:{what}"), format!("at `fds {tag}` descriptor {fd} (opened by the shell for its own use) lacks close-on-exec\ntable: {t:?}")));
+            }
+            if *fd < 10 && *fd > 2 && !before.contains_key(fd) {
+                return Err((format!("internal:low-descriptor:{what}"), format!("at `fds {tag}` descriptor {fd} is open although the script never opened it\ntable: {t:?}")));
+            }
+        }
+    }
+    let Some((_, after)) = tables.iter().find(|(t, _)| t == "after") else {
+        // under a lowered limit a failed expansion or pipeline is a shell error that legitimately
+        // ends a non-interactive shell (with a diagnostic); without a limit nothing may fail
+        if limited && !out.err().is_empty() && out.exit_code().is_some_and(|c| c != 0) {
+            return Err(("aborted".into(), String::new()));
+        }
+        return Err((format!("internal:shell-died:{what}"), format!("no `after` snapshot\nstderr: {}", out.err())));
+    };
+    let b: Vec<i32> = before.keys().copied().collect();
+    let a: Vec<i32> = after.keys().copied().collect();
+    if a != b {
+        return Err((format!("internal:leak:{what}"), format!("open descriptors before {b:?}, after {a:?}")));
+    }
+    Ok(())
+}
+
+fn internal_part(ctx: &Ctx) {
+    // (a) commands, without and with every descriptor limit
+    let mut jobs: Vec<(usize, Option<u32>)> = Vec::new();
+    for u in 0..INTERNAL_USERS.len() {
+        jobs.push((u, None));
+        for limit in 5..=24u32 {
+            jobs.push((u, Some(limit)));
+        }
+    }
+    let jobs = &jobs;
+    ctx.par_for(
+        jobs.len(),
+        |j| {
+            let (u, limit) = jobs[j];
+            let (what, cmd) = INTERNAL_USERS[u];
+            let mut s = String::from("exec 3>>/tmp/f3 4</tmp/in\n(:)\n");
+            if let Some(n) = limit {
+                s.push_str(&format!("ulimit -n {n}\n"));
+            }
+            s.push_str("fds before\n");
+            s.push_str(cmd);
+            s.push_str("\nfds after\n");
+            let mut cfg = vsh::VCfg::script(&s);
+            cfg.extra = vsh::v_probes();
+            cfg.files = FILES.iter().map(|(p, c)| (p.to_string(), FileSpec::Regular(c.as_bytes().to_vec()))).chain(internal_files()).collect();
+            let out = vsh::run_v(cfg);
+            ctx.eval();
+            ctx.count("internal_descriptor_scenarios", 1);
+            match check_internal(&out, what, limit.is_some()) {
+                Ok(()) => ctx.nontrivial_str(&format!("internal|{what}|{limit:?}")),
+                Err((sig, _)) if sig == "aborted" => ctx.count("internal_scenarios_shell_error_under_limit", 1),
+                Err((sig, _)) if sig == "inconclusive" => ctx.count("internal_scenarios_shell_could_not_start", 1),
+                Err((sig, why)) => ctx.violation(sig, format!("{what}, RLIMIT_NOFILE {limit:?}\n{why}\nscript:\n{s}\nstderr:\n{}", out.err())),
+            }
+        },
+        |i, msg| ctx.violation(if crate::util::panic_in_repo(&msg) { "panic:internal".to_string() } else { "harness-panic".into() }, format!("internal scenario {i}: {msg}")),
+    );
+    // (a') the same commands with the k-th process creation failing (fork reports EAGAIN)
+    let extra: [(&str, &str); 3] = [("subshell", "(fds in)"), ("asynchronous list", "fds in & wait"), ("substitution in a pipeline", "x=$(fds in | fds in2)")];
+    let all: Vec<(&str, &str)> = INTERNAL_USERS.iter().copied().chain(extra).collect();
+    let all = &all;
+    ctx.par_for(
+        all.len() * 4,
+        |j| {
+            let (what, cmd) = all[j / 4];
+            // index 0 is the warm-up subshell
+            let k = 1 + j % 4;
+            let s = format!("trap 'fds atexit' EXIT\nexec 3>>/tmp/f3 4</tmp/in\n(:)\nfds before\n{cmd}\nfds after\n");
+            let mut cfg = vsh::VCfg::script(&s);
+            cfg.extra = vsh::v_probes();
+            cfg.fail_spawn = Some(k);
+            cfg.files = FILES.iter().map(|(p, c)| (p.to_string(), FileSpec::Regular(c.as_bytes().to_vec()))).chain(internal_files()).collect();
+            let out = vsh::run_v(cfg);
+            ctx.eval();
+            ctx.count("process_creation_fault_scenarios", 1);
+            match check_internal(&out, what, true) {
+                Ok(()) => ctx.nontrivial_str(&format!("fork-fault|{what}|{k}")),
+                Err((sig, _)) if sig == "aborted" => {
+                    ctx.count("internal_scenarios_shell_error_under_fault", 1);
+                    // the shell gave up (a failed expansion is a shell error); its descriptor table as seen by
+                    // the EXIT trap must still not hold anything the script did not open
+                    let at_exit = out.events.iter().find(|e| e.kind == "fds" && e.args[0] == "atexit").map(|e| parse_table(&e.args[1])).unwrap_or_default();
+                    if at_exit.is_empty() {
+                        ctx.count("fault_scenarios_without_exit_snapshot", 1);
+                    }
+                    let before = out.events.iter().find(|e| e.kind == "fds" && e.args[0] == "before").map(|e| parse_table(&e.args[1])).unwrap_or_default();
+                    let stray: Vec<i32> = at_exit.keys().copied().filter(|fd| *fd < 10 && !before.contains_key(fd)).collect();
+                    if !stray.is_empty() {
+                        ctx.violation(
+                            format!("fork-fault:internal:leak-at-exit:{what}"),
+                            format!("{what}, process creation #{k} fails: when the shell's EXIT trap runs, descriptors {stray:?} are open that were not open before the command\nscript:\n{s}\nstderr:\n{}", out.err()),
+                        );
+                    }
+                }
+                Err((sig, _)) if sig == "inconclusive" => {}
+                Err((sig, why)) => ctx.violation(format!("fork-fault:{sig}"), format!("{what}, process creation #{k} fails\n{why}\nscript:\n{s}\nstderr:\n{}", out.err())),
+            }
+        },
+        |i, msg| ctx.violation(if crate::util::panic_in_repo(&msg) { "panic:fork-fault".to_string() } else { "harness-panic".into() }, format!("fork-fault scenario {i}: {msg}")),
+    );
+    // (b) the shell started on a script file / reading commands from a file, with k of the
+    // descriptors 3..9 already open (so that the file may be opened at 10 or above directly)
+    for preopened in 0..=7u32 {
+        for via in ["operand", "dot"] {
+            let script = "fds in\ncommand . /tmp/dot1\n(fds sub)\n";
+            let mut cfg = if via == "operand" {
+                vsh::VCfg::with_args(vec!["yash".into(), "/tmp/main".into()])
+            } else {
+                vsh::VCfg::script("fds before\ncommand . /tmp/main\nfds after")
+            };
+            cfg.extra = vsh::v_probes();
+            cfg.files = FILES.iter().map(|(p, c)| (p.to_string(), FileSpec::Regular(c.as_bytes().to_vec()))).chain(internal_files()).chain([("/tmp/main".to_string(), FileSpec::Regular(script.as_bytes().to_vec()))]).collect();
+            cfg.setup = Some(Box::new(move |st| {
+                let p = st.processes.get_mut(&yash_env::job::Pid(2)).unwrap();
+                let body = p.get_fd(yash_env::io::Fd(1)).unwrap().clone();
+                for n in 3..3 + preopened as i32 {
+                    p.set_fd(yash_env::io::Fd(n), body.clone()).ok();
+                }
+            }));
+            let out = vsh::run_v(cfg);
+            ctx.eval();
+            ctx.count("internal_descriptor_scenarios", 1);
+            let what = format!("script read through {via} with {preopened} of descriptors 3-9 open at start");
+            let mut bad = None;
+            for e in out.events.iter().filter(|e| e.kind == "fds") {
+                for (fd, (_, _, cloexec, _)) in parse_table(&e.args[1]) {
+                    if fd >= 10 && !cloexec {
+                        bad = Some(format!("at `fds {}` descriptor {fd} lacks close-on-exec: {}", e.args[0], e.args[1]));
+                    }
+                    if fd > 2 && fd < 10 && fd >= 3 + preopened as i32 {
+                        bad = Some(format!("at `fds {}` descriptor {fd} is open although nobody opened it: {}", e.args[0], e.args[1]));
+                    }
+                }
+            }
+            if out.events.iter().filter(|e| e.kind == "fds").count() < 3 {
+                bad = Some(format!("the script did not run to its end; stderr: {}", out.err()));
+            }
+            match bad {
+                Some(why) => ctx.violation(format!("internal:script-file:{via}"), format!("{what}\n{why}")),
+                None => ctx.nontrivial_str(&what),
+            }
+        }
+    }
+}
+
 pub fn run(ctx: &Ctx) {
     let quick = ctx.quick();
+    internal_part(ctx);
     let redirs = all_redirs();
     ctx.count("single_redirections", redirs.len() as i64);
     // systematic: lists of length 1 and 2 x kinds x noclobber
@@ -657,4 +844,4 @@ pub fn run(ctx: &Ctx) {
     ctx.assume("under a lowered descriptor limit only the after-invariants are decided (table restored, nothing >= 10 left open); which allocation fails first is the kernel's business");
 }
 
-pub const RULE: &str = "scenario = (command kind in {regular built-in, special built-in via eval, function, brace group, subshell, if, external, not found, empty command, exec, echo writing through fd 1, special built-in in a subshell}) x redirection list x noclobber; single redirections: 6 target descriptors (open, closed) x every operator x operands {existing, missing, directory, missing parent, open/closed descriptor, close, here-document}; all lists of length 1, every 7th (quick) / every list of length 2, random lists of length 3; fault enumeration: each single redirection x kind x every RLIMIT_NOFILE from 5 to 20 (every 9th in quick) + random lists under random limits. Compared with the fd-table model: table during the command (open-file-description identity, access mode, inode, internal descriptors >= 10 with close-on-exec), table after == before (exec: == modelled), no descriptor >= 10 left open, file contents and creation. evaluations = scenario runs; distinct_nontrivial = distinct scenarios";
+pub const RULE: &str = "scenario = (command kind in {regular built-in, special built-in via eval, function, brace group, subshell, if, external, not found, empty command, exec, echo writing through fd 1, special built-in in a subshell}) x redirection list x noclobber; single redirections: 6 target descriptors (open, closed) x every operator x operands {existing, missing, directory, missing parent, open/closed descriptor, close, here-document}; all lists of length 1, every 7th (quick) / every list of length 2, random lists of length 3; fault enumeration: each single redirection x kind x every RLIMIT_NOFILE from 5 to 20 (every 9th in quick) + random lists under random limits. Compared with the fd-table model: table during the command (open-file-description identity, access mode, inode, internal descriptors >= 10 with close-on-exec), table after == before (exec: == modelled), no descriptor >= 10 left open, file contents and creation. Descriptors of the shell's own: 9 commands that make the shell open descriptors for itself (dot scripts up to three levels deep, missing dot script, command substitutions, here-document, pipeline) x {no limit, every RLIMIT_NOFILE 5..24}, and the shell reading a script file (as operand, through `.`) with 0-7 of the descriptors 3-9 already open: every descriptor >= 10 close-on-exec at every snapshot, no stray descriptor below 10, table after == before; the same commands with the 1st..4th process creation failing (injected EAGAIN). evaluations = scenario runs; distinct_nontrivial = distinct scenarios";
